@@ -10,7 +10,7 @@
     covered by the bounded sweep (a test) and by the correspondence search. *)
 From InvokeVerif Require Import Common.Tree Common.StrUtil Model.MergeModel Model.ConfigModel
      Spec.C03Spec Spec.C06Spec Proofs.C03_merge Proofs.C06_shapes Proofs.C06_track Proofs.C06_refine
-     Proofs.C06_witness Proofs.C06_union Proofs.C06_final Proofs.C06_held.
+     Proofs.C06_witness Proofs.C06_union Proofs.C06_final Proofs.C06_held Proofs.C06_specrun.
 
 (** Representation lemma behind everything: a leaf written at a path where the
     schema has a leaf, with nothing above it marked deleted, turns "journal J"
@@ -67,6 +67,35 @@ Theorem C06_union_is_merge : forall ls X,
   (forall a b, In a ls -> In b ls -> agree a b) ->
   merge_all ls [] = Ok X -> sim (union_of ls) (Node X).
 Proof. exact union_sim_merge. Qed.
+
+(** The journal of the theorem above is built from what the MODEL decided
+    (navigation succeeded, the key was there).  These are the nested dict's own
+    decisions: whenever the model's view and a reference dict show the same at
+    every path, the specification's nested-dict step ([C06Spec.nd_step], the
+    function [spec_ok] judges with) on the reference logs exactly the journal
+    entries the model logs -- for get/contains/len/keys/set/del/pop/setdefault/
+    update literally, for clear the same set of deletions (the key order of the
+    two dicts may differ), and navigation fails in both or neither with the same
+    exception class.  (popitem is judged by the spec on the observed key.)
+    By induction the reference state of [spec_ok]'s judge stays [sim] to the
+    model's view along a guarded history; what is NOT proved is the boolean
+    [spec_ok] itself on the model's trace (returned values compared with
+    [dict_equiv], and the levels read off the script by [supplied_of] -- the C03
+    composition): that part is the bounded sweep and the correspondence. *)
+Theorem C06_model_decisions_are_spec_decisions : forall c st o out,
+  sim (Node (c_cache c)) (Node st) -> literal_op o = true ->
+  snd (nd_step st o out) = events_of c o.
+Proof. exact decisions_agree. Qed.
+
+Theorem C06_clear_deletes_the_same_keys : forall c st fl kp d1 d2,
+  sim (Node (c_cache c)) (Node st) -> nav fl (c_cache c) kp = Ok d1 -> walk fl st kp = Ok d2 ->
+  forall k, In k (keys d1) <-> In k (keys d2).
+Proof. exact clear_same_keys. Qed.
+
+Theorem C06_navigation_errors_agree : forall c st fl kp,
+  sim (Node (c_cache c)) (Node st) ->
+  forall e, nav fl (c_cache c) kp = Err e <-> walk fl st kp = Err e.
+Proof. exact nav_errors_agree. Qed.
 
 (** The same with HELD nested proxies in the history ([Hold h fl kp]: [h = c.<kp>];
     [Via h o]: operation [o] through the held proxy, which reads and decides from
